@@ -154,8 +154,24 @@ func runFunction(vc *VC, u *Universe, pi *PkgInfo, fc *FuncContract, fn *ssa.Fun
 		}
 	}
 	if !isInit && pi.Contracts != nil {
+		// a global invariant is supplied only to functions that can reach one of the globals it
+		// talks about (directly or through same-package callees); elsewhere it is dead weight
+		reach := reachableGlobals(fn, 4)
 		for _, gi := range pi.Contracts.GlobalInvs {
-			vc.assume(env.evalBool(gi.Expr))
+			ids := map[string]bool{}
+			ceIdents(gi.Expr, ids)
+			relevant, mentions := false, false
+			for id := range ids {
+				if _, ok := pi.SSA.Members[id].(*ssa.Global); ok {
+					mentions = true
+					if reach[id] {
+						relevant = true
+					}
+				}
+			}
+			if relevant || !mentions {
+				vc.assume(env.evalBool(gi.Expr))
+			}
 		}
 	}
 	if fc.Where != nil {
@@ -310,8 +326,64 @@ func (x *Exec) havocParam(st *State, t types.Type, name string) Value {
 	return v
 }
 
+// reachableGlobals: names of package-level variables of fn's package referenced by fn or by static
+// callees in the same package, to the given call depth.
+func reachableGlobals(fn *ssa.Function, depth int) map[string]bool {
+	out := map[string]bool{}
+	seen := map[*ssa.Function]bool{}
+	var walk func(f *ssa.Function, d int)
+	walk = func(f *ssa.Function, d int) {
+		if f == nil || seen[f] || d < 0 {
+			return
+		}
+		seen[f] = true
+		for _, b := range f.Blocks {
+			for _, ins := range b.Instrs {
+				for _, op := range ins.Operands(nil) {
+					if op == nil || *op == nil {
+						continue
+					}
+					switch v := (*op).(type) {
+					case *ssa.Global:
+						if v.Pkg == fn.Pkg {
+							out[v.Name()] = true
+						}
+					case *ssa.Function:
+						if v.Pkg == fn.Pkg {
+							walk(v, d-1)
+						}
+					case *ssa.MakeClosure:
+						if cf, ok := v.Fn.(*ssa.Function); ok {
+							walk(cf, d-1)
+						}
+					}
+				}
+			}
+		}
+		for _, an := range f.AnonFuncs {
+			walk(an, d-1)
+		}
+	}
+	walk(fn, depth)
+	return out
+}
+
 // frameObligations: everything not named in modifies is unchanged (for objects that existed at entry).
 func (x *Exec) frameObligations(fr *Frame, env *CEnv, fin *State) {
+	for _, fg := range x.frameGoals(fr, env, fin) {
+		o := x.vc.oblige("frame", Implies(fin.Reach, fg.goal), x.posOf(fr.fn, fr.fn.Pos()), "only the declared frame is modified: component "+fg.comp)
+		o.Clause = "modifies (component " + fg.comp + ")"
+	}
+}
+
+type frameGoal struct {
+	comp string
+	goal *Term
+}
+
+// frameGoals: per heap component that differs from its entry value in state fin, the statement that
+// every location outside the declared frame (of objects that existed at entry) is unchanged.
+func (x *Exec) frameGoals(fr *Frame, env *CEnv, fin *State) (out []frameGoal) {
 	m := x.m()
 	vc := x.vc
 	fc := fr.fc
@@ -412,9 +484,9 @@ func (x *Exec) frameObligations(fr *Frame, env *CEnv, fin *State) {
 			}
 			goal = Forall([][2]string{{"r!f", refSort}, {"j!f", m.ixSort()}}, Implies(And(append(ex, iGt(r, IntLit(0)), iLt(r, a0))...), Eq(Select(Select(now, r), j), Select(Select(was, r), j))))
 		}
-		o := vc.oblige("frame", Implies(fin.Reach, goal), x.posOf(fr.fn, fr.fn.Pos()), "only the declared frame is modified: component "+k)
-		o.Clause = "modifies (component " + k + ")"
+		out = append(out, frameGoal{k, goal})
 	}
+	return out
 }
 
 func (x *Exec) lemmaInstance(env *CEnv, us *Clause) *Term {
